@@ -540,6 +540,14 @@ where
     for value in values {
         match value {
             Some(Value::String(s)) => {
+                // There is no escape sequence for a value that is the same as a missing value.
+                if is_missing(s) {
+                    return Err(io::Error::new(
+                        io::ErrorKind::InvalidInput,
+                        format!("invalid string value: {s:?}"),
+                    ));
+                }
+
                 buf.extend(s.bytes());
 
                 if s.len() < max_len {
@@ -585,7 +593,19 @@ where
                     }
 
                     match result? {
-                        Some(t) => s.push_str(&t),
+                        Some(t) => {
+                            // A string array is a delimited string. There is no escape sequence
+                            // for the delimiter or for a value that is the same as a missing
+                            // value.
+                            if t.contains(DELIMITER) || is_missing(&t) {
+                                return Err(io::Error::new(
+                                    io::ErrorKind::InvalidInput,
+                                    format!("invalid string array value: {t:?}"),
+                                ));
+                            }
+
+                            s.push_str(&t);
+                        }
                         None => s.push(MISSING),
                     }
                 }
@@ -747,6 +767,11 @@ fn encode_genotype(genotype: &dyn Genotype) -> io::Result<Vec<i8>> {
         .iter()
         .map(|result| result.and_then(|(position, phasing)| encode(position, phasing)))
         .collect()
+}
+
+fn is_missing(s: &str) -> bool {
+    let mut chars = s.chars();
+    chars.next() == Some(MISSING) && chars.next().is_none()
 }
 
 #[cfg(test)]
